@@ -4,7 +4,7 @@
 (* the specification.  A trace is one object (its residue sequence) and    *)
 (* the queries made on it with their replies.                              *)
 (***************************************************************************)
-EXTENDS TraceBase, Patterning, Composition
+EXTENDS TraceBase, Patterning, Composition, Profiles
 VARIABLES t, l, verdict
 vars == <<t, l, verdict>>
 
@@ -32,6 +32,18 @@ KappaJudge(r, x) ==
           THEN (IF KappaInRange(Clamp(raw)) THEN OK ELSE "known:K1")
           ELSE "kappa-ratio"
 
+QR(x) == RFrac(x[1], x[2])
+RowOK(rv, prof) == Len(rv) = Len(prof) /\ \A j \in 1..Len(prof) : rv[j].s \in {-1, 0, 1} /\ RClose(RFromFx(rv[j]), QR(prof[j]))
+JudgeLinear(seq, e) ==
+  LET N == Len(seq) IN
+  IF e.w > N THEN (IF e.exc THEN OK ELSE "window-longer-than-sequence-answered")
+  ELSE IF e.exc THEN "profile-raised"
+  ELSE IF e.pos # [j \in 1..N |-> j] THEN "profile-positions"
+  ELSE IF e.q = "linear" THEN (IF RowOK(e.rv, StatProfile(e.stat, seq, e.w)) THEN OK ELSE "profile-" \o e.stat)
+  ELSE LET grps == IF e.default THEN DefaultGroups ELSE [g \in 1..Len(e.groups) |-> SetOf(e.groups[g])] IN
+       IF Len(e.rows) # Len(grps) THEN "composition-rows"
+       ELSE IF \A g \in 1..Len(grps) : RowOK(e.rows[g], GroupProfile(seq, e.w, grps[g])) THEN OK ELSE "profile-composition"
+
 Judge(seq, e) ==
   LET x == ChargePattern(seq)
       r == RFromFx(e.r)
@@ -49,6 +61,7 @@ Judge(seq, e) ==
        [] e.q = "omega"  -> KappaJudge(r, OmegaPattern(seq))
        [] e.q = "kappax" -> KappaJudge(r, KappaXPattern(seq, SetOf(e.g1), SetOf(e.g2)))
        [] e.q = "omegaseq" -> IF e.rs = OmegaString(seq) THEN OK ELSE "omega-sequence"
+       [] e.q \in {"linear", "lincomp"} -> JudgeLinear(seq, e)
        [] e.q = "param"  -> IF e.name \notin ScalarParams THEN "machinery:unknown-param"
                             ELSE IF RClose(r, Param(e.name, seq)) THEN OK ELSE "param-" \o e.name
        [] e.q = "aafrac" -> IF RClose(r, AAFraction(seq, e.aa)) THEN OK ELSE "amino-acid-fraction"
